@@ -102,6 +102,8 @@ def mechanism(ctx):
     ref = None
     for cfg, n, levels, levels5 in runs:
         g, res = objcheck.tlc_graph(ctx, "MC_MemTrack.tla", cfg, workers=4)
+        import gc
+        gc.freeze()                     # the graph is long-lived: keep the cyclic collector from re-scanning it
         byop = {}
         for _, _, e in g.edges:
             byop[e["op"]] = byop.get(e["op"], 0) + 1
